@@ -238,16 +238,13 @@ impl Transport for SendmailTransport {
         // Spawn the sendmail command
         let mut process = self.command(envelope).spawn().map_err(error::client)?;
 
-        process
-            .stdin
-            .as_mut()
-            .unwrap()
-            .write_all(email)
-            .map_err(error::client)?;
+        // A program that fails may stop reading its input early: its exit
+        // status and diagnostics say more than the resulting write error
+        let written = process.stdin.as_mut().unwrap().write_all(email);
         let output = process.wait_with_output().map_err(error::client)?;
 
         if output.status.success() {
-            Ok(())
+            written.map_err(error::client)
         } else {
             let stderr = String::from_utf8(output.stderr).map_err(error::response)?;
             Err(error::client(stderr))
@@ -272,17 +269,13 @@ impl AsyncTransport for AsyncSendmailTransport<AsyncStd1Executor> {
         // Spawn the sendmail command
         let mut process = command.spawn().map_err(error::client)?;
 
-        process
-            .stdin
-            .as_mut()
-            .unwrap()
-            .write_all(email)
-            .await
-            .map_err(error::client)?;
+        // A program that fails may stop reading its input early: its exit
+        // status and diagnostics say more than the resulting write error
+        let written = process.stdin.as_mut().unwrap().write_all(email).await;
         let output = process.output().await.map_err(error::client)?;
 
         if output.status.success() {
-            Ok(())
+            written.map_err(error::client)
         } else {
             let stderr = String::from_utf8(output.stderr).map_err(error::response)?;
             Err(error::client(stderr))
@@ -307,17 +300,13 @@ impl AsyncTransport for AsyncSendmailTransport<Tokio1Executor> {
         // Spawn the sendmail command
         let mut process = command.spawn().map_err(error::client)?;
 
-        process
-            .stdin
-            .as_mut()
-            .unwrap()
-            .write_all(email)
-            .await
-            .map_err(error::client)?;
+        // A program that fails may stop reading its input early: its exit
+        // status and diagnostics say more than the resulting write error
+        let written = process.stdin.as_mut().unwrap().write_all(email).await;
         let output = process.wait_with_output().await.map_err(error::client)?;
 
         if output.status.success() {
-            Ok(())
+            written.map_err(error::client)
         } else {
             let stderr = String::from_utf8(output.stderr).map_err(error::response)?;
             Err(error::client(stderr))
